@@ -138,13 +138,18 @@ Definition delivery_failed_for_nothing (u : run) : bool :=
   match after_last_create (u_trace u) None with
   | Some (a, rest) =>
       functional rest &&
-      forallb (fun p => match p with (EDb _ _, AErr) | (ENewTransport _, AErr) | (ELock _, AErr) | (EUnlock _, AErr) | (EBatchDeliver _ _, AErr) | (EApp _ _, AErr) => false | _ => true end) rest &&
+      forallb (fun p => match p with (EDb _ _, AErr) | (ENewTransport _, AErr) | (ELock _, AErr) | (EUnlock _, AErr) | (EBatchDeliver _ _, AErr) | (EApp _ _, AErr) => false | _ => true end) (u_trace u) &&
       match batches rest with [] => true | _ => false end &&
-      match collect_recipients a, self_of_trace rest with
-      | Ok addressed, Some self =>
+      match collect_recipients a with
+      | Ok addressed =>
           list_eqb (deref_events rest) (derefs_spec (graph_of_trace rest "") addressed) &&
-          match spec_targets (graph_of_trace rest self) a with Ok _ => true | _ => false end
-      | _, _ => false
+          (* it did not fail at the sender's own actor document (one without inbox fails the delivery: C02's interpretation note) *)
+          match self_of_trace rest with
+          | Some _ => true
+          | None => negb (existsb (fun p => match fst p with EDb op _ => String.eqb op "ActorForOutbox" | _ => false end) rest)
+          end &&
+          match spec_targets (graph_of_trace rest (match self_of_trace rest with Some self => self | None => "" end)) a with Ok _ => true | _ => false end
+      | _ => false
       end
   | None => false
   end.
